@@ -62,6 +62,8 @@ type Server struct {
 	ReplMon     bool
 	ReplMonTS   float64
 	Dubious     bool   // connections from other hosts are refused with error 1040 (too many connections)
+	FailOps     map[string]uint16 // statements of these kinds (Classify op names) fail with the MySQL error number
+	StuckSQL    bool              // the SQL thread runs but applies nothing
 	FailRO      uint16 // SET read_only/super_read_only statements fail with this MySQL error number
 	FailSSQuery bool   // the semi-sync status query fails (connection-level error)
 	StmtCount   int
@@ -340,7 +342,7 @@ func (w *World) Replicate(host string) bool {
 // Apply lets r's SQL thread apply what its relay log holds.
 func (w *World) Apply(host string) bool {
 	r := w.Servers[host]
-	if r == nil || !r.Up || !r.HasSource || !r.SQLRunning {
+	if r == nil || !r.Up || !r.HasSource || !r.SQLRunning || r.StuckSQL {
 		return false
 	}
 	todo := r.Retrieved.Minus(r.Executed)
@@ -539,6 +541,9 @@ func (s *Server) mutated(c *Call) {
 // Exec executes one statement. block=true means the statement waits inside the server.
 func (s *Server) Exec(w *World, c *Call) (rows *RowSet, err error, block bool) {
 	q := c.SQL
+	if n, ok := s.FailOps[c.Op]; ok {
+		return nil, mysqlErr(n, "injected failure of "+c.Op), false
+	}
 	switch q {
 	case qPing:
 		return one([]string{"Ok"}, int64(1)), nil, false
